@@ -500,3 +500,40 @@ Definition plan_ok (prog : list stmt) (ss fs : list Z) : verdict :=
               c_all := false; c_nr := true |} in
   {| v_stmt := cs; v_fn := cf; v_residual := (ss2, fs2); v_dead := dead; v_live := live;
      v_checked := covered_ok c prog |}.
+
+(* ---------- never-read locals whose declaration the analysis keeps ----------
+   The analysis keeps `make u get e` when a later statement still mentions u, even if that
+   statement (`u get e'`) is itself pruned.  Such a plan P is compared with the AUGMENTED plan
+   P' = P + every writer of a never-read local all of whose writers have total right-hand
+   sides: P' against P and P' against its residual are both instances of the general theorem. *)
+Definition dead_ids2 (prog : list stmt) : list Z :=
+  let sts := all_stmts_block prog in
+  let reads := read_ids prog in
+  let params := param_ids prog in
+  let bad := flat_map (fun t => match writer_of t with
+                                | Some (d, e) => if pure_total e then [] else [d]
+                                | None => []
+                                end) sts in
+  let cands := flat_map (fun t => match writer_of t with Some (d, _) => [d] | None => [] end) sts in
+  nodup Z.eq_dec
+    (filter (fun d => negb (memz d bad) && negb (memz d reads) && negb (memz d params)) cands).
+
+Definition writer_sids (prog : list stmt) (dead : list Z) : list Z :=
+  flat_map (fun t => match writer_of t with
+                     | Some (d, _) => if memz d dead then oid (stmt_sid t) else []
+                     | None => []
+                     end) (all_stmts_block prog).
+
+Record verdict2 := {
+  w_aug : list Z;            (* statement ids added to the plan *)
+  w_main : verdict;          (* plan_ok of the augmented plan *)
+  w_checked_aug : bool       (* covered_ok: augmented plan against the real plan *)
+}.
+
+Definition plan_ok2 (prog : list stmt) (ss fs : list Z) : verdict2 :=
+  let d2 := dead_ids2 prog in
+  let extra := nodup Z.eq_dec (filter (fun i => negb (memz i ss)) (writer_sids prog d2)) in
+  let ss' := ss ++ extra in
+  let ca := {| c_p1 := Some (ss', fs); c_p2 := Some (ss, fs); c_dead := d2; c_live := [];
+               c_all := true; c_nr := true |} in
+  {| w_aug := extra; w_main := plan_ok prog ss' fs; w_checked_aug := covered_ok ca prog |}.
